@@ -42,9 +42,9 @@ def runs(ctx, deep=False):
     base = cc.session_base_cases(ctx, deep)
     outs0 = cc.run_driver({'mode': 'sessions', 'cases': base})
     fault_cases = cc.session_fault_cases(ctx, base, outs0, deep)
-    outs1 = cc.run_driver({'mode': 'sessions', 'cases': fault_cases}, timeout=1500)
+    outs1 = cc.run_driver({'mode': 'sessions', 'cases': fault_cases})
     tcases = cc.thread_cases(ctx, deep)
-    touts = cc.run_driver({'mode': 'threads', 'cases': tcases}, timeout=900)
+    touts = cc.run_driver({'mode': 'threads', 'cases': tcases})
     r = {'cases': base + fault_cases, 'outs': outs0 + outs1, 'tcases': tcases, 'touts': touts}
     _cache[key] = r
     return r
